@@ -515,10 +515,19 @@ Lemma step_listen_cls : forall st sp t f fl, INV st sp -> gstep sp (Listen (TCls
   INV (fst (step st (Listen (TCls t) f fl))) (fst (sstep sp (Listen (TCls t) f fl))).
 Proof.
   intros st sp t f fl I G. cbn [gstep] in G.
-  apply andb_true_iff in G. destruct G as [G G3]. apply andb_true_iff in G. destruct G as [G1 G2].
-  apply Nat.ltb_lt in G1. rewrite (hier_len _ _ (inv_hier _ _ I)) in G1. apply negb_true_iff in G2.
+  apply andb_true_iff in G. destruct G as [G1 G3].
+  apply Nat.ltb_lt in G1. rewrite (hier_len _ _ (inv_hier _ _ I)) in G1.
   cbn [step sstep]. rewrite (valid_target_eq st sp (TCls t) I). cbn [valid_target].
   destruct (Nat.ltb_spec t (length (classes st))) as [_|X]; [|lia].
+  rewrite (inv_k2c _ _ I), has_key_live.
+  destruct (live (TCls t, f) (s_log sp)) eqn:G2.
+  { (* the pair is established already: ignored *)
+    cbn [fst snd]. split; [reflexivity|].
+    constructor; cbn [classes insts k2c next_w fired s_hier s_insts s_log s_next s_fired]; try apply I;
+      try reflexivity.
+    - rewrite (inv_next _ _ I). reflexivity.
+    - intros r Hr. pose proof (inv_idlt _ _ I r Hr). lia. }
+  cbn [orb] in G3.
   set (cs := classes st) in *. set (log := s_log sp) in *.
   set (r := {| g_id := s_next sp; g_tgt := TCls t; g_fn := f; g_ins := fl_insert fl;
                g_once := fl_once fl; g_wrap := fl_wrap fl |}).
@@ -537,7 +546,7 @@ Proof.
     as (SH & HP & HnP).
   set (cs' := fold_left (ins_step t (negb (g_ins r)) (lfn_of r)) W cs) in *.
   pose proof SH as [SL SM].
-  rewrite (inv_k2c _ _ I), has_key_live. fold log. rewrite G2. cbn [fst snd]. split; [reflexivity|].
+  cbn [fst snd]. split; [reflexivity|].
   destruct (log_snoc_inv st sp r I Eid G2) as (K1 & K2 & K3).
   assert (HtW : In t W) by (apply Wdesc; split; [exact G1|left; reflexivity]).
   constructor; cbn [classes insts k2c next_w fired s_hier s_insts s_log s_next s_fired]; fold log.
